@@ -178,7 +178,7 @@ class NMAP(Application, discriminator="nmap"):
                 ]
             else:
                 ip_addresses.append(ip_address)
-        return set(ip_addresses)
+        return list(dict.fromkeys(ip_addresses))
 
     @validate_call()
     def ping_scan(
